@@ -74,6 +74,11 @@ STAGES.update({
             ('producer-outage', 'MimeBuild', cfg(MAXP='2', MAXE='1', MAXA='1', ENCS='{"qp"}', PRODS='<<"writer", "chunk7">>', SRCS='<<"seeker", "chunk57">>',
                                                  CCS='<<"crlf", "size900">>',
                                                  OPSEQS='{<<a, "BreakSrc", b, "FixSrc", c>> : a \\in {"WriteTo", "Reader"}, b \\in {"WriteTo", "Reader", "UpdateReader", "File"}, c \\in {"WriteTo", "UpdateReader", "Reader", "TempFile"}}')),
+            # failing sinks at several depths of the message, then renders; a Reader that is not drained before it is updated
+            ('failed-render-positions', 'MimeBuild', cfg(MAXP='1', MAXE='1', MAXA='1', ENCS='{"qp"}', ROTS='{0, 1, 2}',
+                                                CCS='<<"size900", "size2000", "crlf">>', SRCS='<<"seeker", "reader", "buffer">>',
+                                                OPSEQS='{<<"WriteTo", a, "WriteTo", "Reader">> : a \\in {"FailSink25", "FailSinkMid", "FailSink75", "FailSink90", "FailSinkLate"}}'
+                                                       ' \\cup {<<"WriteTo", a, "UpdateReader">> : a \\in {"ReaderHalf", "ReaderExact"}}')),
             ('histories-len3', 'MimeBuild', cfg(MAXP='2', MAXE='1', MAXA='1', ENCS='{"b64"}', ROTS='{2}',
                                                 CCS='<<"crlf", "utf8", "size900">>', SRCS='<<"seeker", "reader", "file", "iofs", "tpl">>',
                                                 OPSEQS='{<<a, b, c>> : a \\in {"WriteTo", "FailSink", "Reader"}, b \\in {"FailSinkLate", "UpdateReader", "Write"}, c \\in {"WriteTo", "File", "UpdateReader"}}')),
@@ -211,6 +216,13 @@ STAGES['C01']['quick'] += [('call-sequences-len3', 'MsgCalls', dict(MAXCALLS='3'
                            ('call-sequences-len4-core', 'MsgCalls', dict(MAXCALLS='4', CALLS=CORECALLS, ENCS='{"b64"}'))]
 STAGES['C01']['thorough'] += [('call-sequences-len4', 'MsgCalls', dict(MAXCALLS='4', CALLS=ALLCALLS, ENCS='{"qp"}')),
                               ('call-sequences-len5-core', 'MsgCalls', dict(MAXCALLS='5', CALLS=CORECALLS, ENCS='{"qp", "b64"}'))]
+# failing producers and sinks of S/MIME signed messages (the message is rendered twice per WriteTo)
+STAGES['C12']['quick'].append(
+    ('signed-producers-and-sinks', 'MimeBuild', cfg(MAXP='2', MAXE='1', MAXA='1', ENCS='{"qp", "8bit"}', SMIMES='{[key |-> "ecdsa", inter |-> FALSE]}',
+                                                    FAULTS=PRODFAULTS + ' \\cup {[kind |-> "sink", slot |-> 0, when |-> ""]}', CCS='<<"crlf", "utf8">>')))
+STAGES['C12']['thorough'].append(
+    ('signed-producers-and-sinks', 'MimeBuild', cfg(MAXP='2', MAXE='2', MAXA='2', ENCS='{"qp", "b64", "8bit"}', SMIMES=KEYS2,
+                                                    FAULTS=PRODFAULTS + ' \\cup ' + SINKFAULTS, CCS='<<"crlf", "utf8">>')))
 STAGES['C02']['quick'].append(
     ('signed-file-options', 'MimeBuild', cfg(MAXP='1', MAXE='1', MAXA='1', ENCS='{"qp", "b64"}', CCS='<<"crlf">>', SMIMES='{[key |-> "ecdsa", inter |-> FALSE]}',
                                               FDESCS='{"", "utf8", "crlf"}', FNAMES='{"", "utf8", "quotes"}', PDESCS='{"", "utf8"}')))
